@@ -974,13 +974,15 @@ func fillWithSameType(fieldType reflect.Type, value reflect.Value, mapValue any,
 	if fieldType.Kind() == reflect.Ptr {
 		baseType := Deref(fieldType)
 		target := reflect.New(baseType).Elem()
-		setSameKindValue(baseType, target, mapValue)
+		if err := setSameKindValue(baseType, target, mapValue); err != nil {
+			return err
+		}
+
 		value.Set(target.Addr())
-	} else {
-		setSameKindValue(fieldType, value, mapValue)
+		return nil
 	}
 
-	return nil
+	return setSameKindValue(fieldType, value, mapValue)
 }
 
 // 获取字典 m 中给定键 key 的值，键的格式可为 parentKey.childKey。
@@ -1057,10 +1059,17 @@ func readKeys(key string) []string {
 	return keys
 }
 
-func setSameKindValue(targetType reflect.Type, target reflect.Value, value any) {
-	if reflect.ValueOf(value).Type().AssignableTo(targetType) {
-		target.Set(reflect.ValueOf(value))
-	} else {
-		target.Set(reflect.ValueOf(value).Convert(targetType))
+func setSameKindValue(targetType reflect.Type, target reflect.Value, value any) error {
+	rv := reflect.ValueOf(value)
+	switch {
+	case rv.Type().AssignableTo(targetType):
+		target.Set(rv)
+	case rv.Type().ConvertibleTo(targetType):
+		target.Set(rv.Convert(targetType))
+	default:
+		// Kind 相同并不保证可转换（两个不同的结构体类型、多级指针等）：Convert 会 panic
+		return errTypeMismatch
 	}
+
+	return nil
 }
